@@ -149,6 +149,12 @@ def main(run, replay=None):
         c = replay["case"]
         if c.get("kind") == "spline":
             return splinerun.replay_spline(run, "C02", c)
+        if c.get("kind") == "ar_inverse":
+            from vcore import arinv
+
+            for f in arinv.replay(run, c):
+                run.violation({"kind": "ar_inverse", "clause": f["clause"], "cls": f["cls"]}, "replayed: " + f["detail"], c)
+            return
         if c.get("kind") == "zoo":
             for f in zoo_task([c["name"]])["fails"]:
                 if f["variant"] == c["variant"]:
@@ -182,6 +188,10 @@ def main(run, replay=None):
     for s in ls:
         if int(s["par"]["n"]) > 1:
             run.nontrivial.add(("lin", repr(sorted((k, str(v)) for k, v in s["par"].items()))))
+    # the pass-by-pass inverse of autoregressive transforms (spec/Autoreg.tla)
+    from vcore import arinv
+
+    fails += arinv.run_leg(run)
     seen = set()
     for f in fails:
         key = (f["kind"], f.get("name"), f.get("variant"), f.get("cls"), f.get("n"), f["clause"])
@@ -192,5 +202,6 @@ def main(run, replay=None):
     run.exhaustive = True
     run.assumptions = [
         "tolerances: 1e-6 relative in float64, times the implementation's declared constants on the paths that use them (bin-search eps 1e-6, cubic eps 1e-5 / quadratic threshold 1e-3, UMNN bisection in float32)",
+        "autoregressive inverses (Autoreg.tla): 8 transform variants x 1..4 (thorough 6) features; what the conditioner is fed in each pass is observed by wrapping its forward",
         "the zoo sweep is the property's own relation evaluated on the real code at generic points (supplementary to the lattice cases)",
     ]
